@@ -5,7 +5,12 @@ use crate::{
 };
 use lazy_static::lazy_static;
 use std::collections::HashMap;
+#[cfg(not(sentinel_verif))]
 use std::sync::{Arc, RwLock};
+#[cfg(sentinel_verif)]
+use std::sync::{Arc};
+#[cfg(sentinel_verif)]
+use crate::verif_sync::{RwLock};
 
 type ResourceNodeMap = HashMap<String, Arc<ResourceNode>>;
 
